@@ -237,13 +237,13 @@ def build_early(r):
                       "expect": "early", "steps": steps[1:]}
 
 
-def build_blacklisted(r):
+def build_blacklisted(r, name="blacklisted"):
     steps = []
     for _, st in r.trace[1:]:
         p = plain(st)
         steps.append({"a": p["last"], "t": {k: p[k] for k in ("pools", "nodes", "blocked", "blHashes", "initialHeight",
                                                                "storeFrom", "head", "reqs")}})
-    return {"name": "blacklisted", "peers": MGR_CONSTS["peers1"], "hashes": MGR_CONSTS["chain"],
+    return {"name": name, "peers": MGR_CONSTS["peers1"], "hashes": MGR_CONSTS["chain"],
             "enable_blacklisting": True, "steps": steps}
 
 
@@ -374,9 +374,14 @@ def run(ctx):
         # 4. atomic-method state graph (printed edge by edge)
         "atomic": lambda: ctx.tlc(SPEC, atomic_cfg, timeout=2400, workers=2 if quick else 4),
         "atomicwake": lambda: ctx.tlc(SPEC, "peers/PoolAtomicWake.cfg", timeout=2400, workers=2),
+        "atomicclean": lambda: ctx.tlc(SPEC, "peers/PoolAtomicCleanup.cfg", timeout=2400, workers=2),
         # 5. the manager as it is / without the black-list fix / simulated behaviours for the replay
         "mgr": lambda: ctx.tlc("peers/MCManager.tla", mgr_cfg, timeout=2400, workers=max(2, W // 4)),
         "mgrorig": lambda: witness(ctx, "blacklisted", "peers/MCManager.tla", "peers/ManagerOrig.cfg", ("BlacklistedNeverOffered",), build_blacklisted),
+        # hypothetical variant without the re-check of a peer delivered to a BLOCKED Peer(): directed witness (waiter woken by
+        # the cool-down expiry of a peer black-listed meanwhile)
+        "mgrwake": lambda: witness(ctx, "wakeblacklisted", "peers/MCManager.tla", "peers/ManagerNoWakeCheck.cfg",
+                                   ("BlacklistedNeverOffered",), lambda r: build_blacklisted(r, "wakeblacklisted")),
         "mgrsim": lambda: ctx.tlc("peers/MCManager.tla", "peers/ManagerSim.cfg", count=False, timeout=2400, workers=1, deadlock=False,
                                   simulate="num=%d" % (120 if quick else 1500), depth=16, seed=ctx.seed),
         "build": lambda: warm_build(ctx),
@@ -406,7 +411,8 @@ def run(ctx):
 
     wake_first = lambda a: a.get("act") in ("next_wake", "next_cancel", "releaseExpired")   # rarer edges first
     for key, cfg, name, npaths in (("atomic", atomic_cfg, "pool", 300 if quick else 8000),
-                                   ("atomicwake", "peers/PoolAtomicWake.cfg", "pool2", 1200 if quick else 3000)):
+                                   ("atomicwake", "peers/PoolAtomicWake.cfg", "pool2", 1200 if quick else 3000),
+                                   ("atomicclean", "peers/PoolAtomicCleanup.cfg", "pool3", 1500 if quick else 3000)):
         r = R[key]
         g = Graph(r.printed.get("EDGE", []))
         if g.root is None:
@@ -418,8 +424,7 @@ def run(ctx):
         ctx.cover(pool_graph_edges=g.n_edges, pool_graph_edges_replayed=covered, pool_graph_nodes=len(g.nodes))
         ctx.log("atomic graph %s: %d nodes, %d edges; %d paths cover %d edges" % (cfg, len(g.nodes), g.n_edges, len(paths), covered))
 
-    if R["mgrorig"]:
-        plan["mwitness"] = [R["mgrorig"]]
+    plan["mwitness"] = [w for w in (R["mgrorig"], R["mgrwake"]) if w]
 
     r = R["mgrsim"]
     sims = split_sim_traces(r.printed.get("EDGE", []))
@@ -487,7 +492,7 @@ def run(ctx):
         ctx.sample(s)
 
     # ---- vacuity / binding sanity
-    npaths = sum(len(plan[k]["paths"]) for k in ("pool", "pool2") if k in plan)
+    npaths = sum(len(plan[k]["paths"]) for k in ("pool", "pool2", "pool3") if k in plan)
     if cnt.get("pool_paths_replayed", 0) < npaths and not rep.get("violations"):
         ctx.inconclusive("only %s of %d pool paths were replayed" % (cnt.get("pool_paths_replayed"), npaths))
     fa = summ.get("fine_abba")
@@ -508,11 +513,20 @@ def run(ctx):
         elif not mb.get("diverged") and mb.get("violations", 0) == 0:
             ctx.inconclusive("black-list witness: the real manager followed the counterexample of the unfixed model to the "
                              "end but no monitor fired: %s" % mb)
+    mw = summ.get("mwitness_wakeblacklisted")
+    if any(w["name"] == "wakeblacklisted" for w in plan.get("mwitness", [])):
+        if not mw:
+            ctx.inconclusive("the blocked-waiter witness was not executed")
+        elif not mw.get("diverged") and mw.get("violations", 0) == 0:
+            ctx.inconclusive("blocked-waiter witness: the real manager followed the counterexample of the variant without the "
+                             "re-check to the end but no monitor fired: %s" % mw)
+        elif mw.get("diverged") and mw.get("steps", 0) < mw.get("of", 0) - 1:
+            ctx.inconclusive("blocked-waiter witness: the real manager left the scenario before the waiter was woken: %s" % mw)
     bad_sims = [(k, v) for k, v in summ.items() if k.startswith("mwitness_sim") and v.get("diverged")]
     if bad_sims:
         ctx.inconclusive("conformance drift (manager): %d of %d simulated behaviours not followed by the real manager; first: %s"
                          % (len(bad_sims), len(sims), bad_sims[0]))
-    ctx.cover(deadlock_schedule=fa, early_return_witness=we, blacklist_witness=mb,
+    ctx.cover(deadlock_schedule=fa, early_return_witness=we, blacklist_witness=mb, blocked_waiter_witness=mw,
               traces_validated_against_impl=len(sims) - len(bad_sims))
 
 
